@@ -13,5 +13,5 @@ except Exception: m={}
 m['confirmed_by_us']=note
 json.dump(m,open(p,'w'),indent=1)
 PY
-git -C /repo worktree remove --force /tmp/wt-${id%%-*} 2>/dev/null
+git -C /repo worktree remove --force /tmp/wt-$id 2>/dev/null
 ls /verif/seeded/$id
